@@ -206,17 +206,60 @@ def r6_3(ctx, R):
         fl2 = ctx.flow(b)
         for bb, t in pan:
             m += 1
-            ok = False
-            for sb in range(b.n):
-                for tgt, labs in fl2.edge_labels(sb).items():
-                    for lab in labs:
-                        if lab[0] == "bool" and lab[2] is True and lab[1][0] == "call" and (lab[1][1] or "").endswith("::is_err") \
-                                and b.dominates(tgt, bb) and len(b.pred[tgt]) == 1:
-                            ok = True
+            ok = bb in refusal_region(ctx, R, b, fl2)
             stores = [s for (sbb, i, s) in fl2.stores if b.dominates(sbb, bb) and not b.is_cleanup(sbb)]
             ctx.ob("R6.3", b, "panic-only-after-refusal@%s" % _site_label(b, bb), ok and not stores, b.loc(bb),
                    "behind is_err: %s, stores before panic: %d" % (ok, len(stores)))
     ctx.floor("R6.3", "push-panics", m, 4)
+
+
+def refusal_region(ctx, R, b, fl):
+    """Blocks of b reachable only across an edge on which the Result of a try-variant (a crate function returning
+    Result<(), X> that reaches INSERT) is known to be Err: is_err() true / is_ok() false / the Err arm of a match."""
+    def is_try_call(x):
+        x = strip_refs(x)
+        return x[0] == "call" and x[1] in ctx.facts.bodies and re.match(r"core::result::Result<\(\), \w+>$", ctx.facts.bodies[x[1]].locals[0]) \
+            and reaches(ctx.facts, ctx.facts.bodies[x[1]], re.escape(R.insert_fn.path) + "$", 3)
+
+    def refusal(lab):
+        x = lab[1]
+        if lab[0] == "bool" and x[0] == "call" and x[2]:
+            nm = x[1] or ""
+            if (nm.endswith("::is_err") and lab[2] is True) or (nm.endswith("::is_ok") and lab[2] is False):
+                return is_try_call(x[2][0])
+            return False
+        if lab[0] == "variant" and lab[2] == "Err":
+            return is_try_call(x)
+        if lab[0] == "notvariants" and "Ok" in lab[2]:
+            return is_try_call(x)
+        return False
+    seen = set()
+    work = [0]
+    while work:
+        x = work.pop()
+        if x in seen:
+            continue
+        seen.add(x)
+        labs = fl.edge_labels(x)
+        for y in b.normal_succ(x):
+            if any(refusal(l_) for l_ in labs.get(y, [])):
+                continue
+            work.append(y)
+    return {x for x in range(b.n) if x not in seen and not b.is_cleanup(x)}
+
+
+def _reaches_return(b, bb):
+    seen = set()
+    work = [bb]
+    while work:
+        x = work.pop()
+        if x in seen:
+            continue
+        seen.add(x)
+        if b.term(x)["k"] == "return":
+            return True
+        work.extend(b.normal_succ(x))
+    return False
 
 
 def child_param(t):
@@ -287,16 +330,14 @@ def r6_5(ctx, R):
                 src = fl.local_expr(p["l"]) if not p["p"] else ("unknown",)
                 ok = src[0] == "call" and src[1] in ctx.facts.bodies and reaches(ctx.facts, ctx.facts.bodies[src[1]], re.escape(R.insert_fn.path) + "$", 3)
                 # ... and the function panics exactly when that result is an Err
-                tested = False
-                for sb in range(b.n):
-                    for tgt, labs in fl.edge_labels(sb).items():
-                        for lab in labs:
-                            if lab[0] == "bool" and lab[2] is True and lab[1][0] == "call" and (lab[1][1] or "").endswith("::is_err") \
-                                    and strip_refs(lab[1][2][0]) == src:
-                                pan = [pb_ for pb_, pt_, pf_ in b.calls() if pf_ and re.search(r"core::panicking::panic", pf_["def"]) and b.dominates(tgt, pb_)]
-                                tested = tested or bool(pan)
+                reg = refusal_region(ctx, R, b, fl)
+                tested = any(pb_ in reg for pb_, pt_, pf_ in b.calls() if pf_ and re.search(r"core::panicking::panic", pf_["def"]))
                 ok = ok and tested
                 why = "result of the try-variant in a panicking push (refused child dropped before the panic): %s" % ok
+            elif p and re.search(r"::push(_back|_front)?$", b.path) and bb in refusal_region(ctx, R, b, fl) and not _reaches_return(b, bb):
+                # (d') the rejected child taken out of the Err payload and dropped on the refusal path, which only panics
+                ok = True
+                why = "refused child dropped on the refusal path of a panicking push (no return reachable)"
             elif how == "assume_init_drop" and any(b in c07.impl_fns_of(ctx, sp) for sp in c07.mu_structs(ctx)):
                 ok = True
                 why = "release helper of a MaybeUninit buffer struct (covered by R6.1 / C07 R7.1)"
@@ -365,19 +406,36 @@ def r6_6(ctx, R, mus):
                 early = [(a_, b_) for a_, b_, is_none in (exits or []) if not is_none]
                 ctx.ob("R6.6", b, "loop-left-only-on-exhaustion@%s" % _site_label(b, bb), exits is not None and not early, b.loc(nx[3]),
                        "early exits: %s" % [b.loc(a_) for a_, b_ in early])
-                # vacancy guard with the same index
-                ok_g = False
-                for sb in range(b.n):
-                    for tgt, labs in fl.edge_labels(sb).items():
-                        for lab in labs:
-                            if lab[0] == "bool" and lab[2] is True and lab[1][0] == "call" and (lab[1][1] or "").endswith("::is_none") \
-                                    and b.dominates(tgt, bb) and len(b.pred[tgt]) == 1:
-                                acc = [c for c in expr_calls(lab[1]) if c[1] in accs]
-                                if acc:
-                                    idx = acc[0][2][-1]
-                                    same_iter = any(c[3] == nx[3] for c in expr_calls(idx)) if idx[0] != "call" or True else False
-                                    if same_iter and idx[0] == "proj" and idx[2][-1] == ".0":
-                                        ok_g = True
+                # vacancy guard with the same index: every path from the iterator step to the release crosses an edge
+                # on which the accessor at that index is known to be vacant (is_none() true / is_some() false / None arm)
+                def vacancy_edge(lab):
+                    x = lab[1]
+                    if lab[0] == "bool" and x[0] == "call" and (((x[1] or "").endswith("::is_none") and lab[2] is True) or
+                                                                 ((x[1] or "").endswith("::is_some") and lab[2] is False)):
+                        acc = [c for c in expr_calls(x) if c[1] in accs]
+                    elif (lab[0] == "variant" and lab[2] == "None") or (lab[0] == "notvariants" and "Some" in lab[2]):
+                        acc = [c for c in expr_calls(x) if c[1] in accs] if x[0] == "call" and x[1] in accs else []
+                    else:
+                        return False
+                    if not acc:
+                        return False
+                    idx = acc[0][2][-1]
+                    return any(c[3] == nx[3] for c in expr_calls(idx)) and idx[0] == "proj" and idx[2][-1] == ".0"
+                seen_g = set()
+                work_g = [nx[3]]
+                while work_g:
+                    x_ = work_g.pop()
+                    if x_ in seen_g:
+                        continue
+                    seen_g.add(x_)
+                    labs_ = fl.edge_labels(x_)
+                    for y_ in b.normal_succ(x_):
+                        if any(vacancy_edge(l_) for l_ in labs_.get(y_, [])):
+                            continue
+                        if y_ == nx[3]:
+                            continue
+                        work_g.append(y_)
+                ok_g = bb not in seen_g
                 ctx.ob("R6.6", b, "release-guarded-by-vacancy-of-same-index@%s" % _site_label(b, bb), ok_g, b.loc(bb))
     ctx.floor("R6.6", "release-sites", n, 2)
 
